@@ -172,6 +172,48 @@ func schedPassthroughFamily(rng *rand.Rand, n int) []schedFam {
 	return out
 }
 
+// schedCoMappedFamily (C02): a pipeline mapped over TWO collections from different producers (lockstep
+// `split`), whose inner calls use only ONE of the two elements.  The call that uses only `b` still takes
+// its forks from the master collection (the first split source): it depends on BOTH producers.
+// Schedules: the master's producer finishes last / the other one finishes last / PRNG.
+func schedCoMappedFamily(rng *rand.Rand, n int) []schedFam {
+	var out []schedFam
+	for i := 0; i < n; i++ {
+		useMap := i%2 == 1
+		depth := 1 + (i/2)%2
+		swap := (i/4)%2 == 1 // which argument comes first (= which source is the master)
+		var sb strings.Builder
+		sb.WriteString(schedFamStages)
+		if depth == 2 {
+			sb.WriteString("pipeline INNERB(\n    in  int b,\n    out int y,\n)\n{\n    call WORK as USE_B2(\n        x = self.b,\n    )\n\n    return (\n        y = USE_B2.y,\n    )\n}\n\n")
+		}
+		sb.WriteString("pipeline PER(\n    in  int a,\n    in  int b,\n    out int ya,\n    out int yb,\n)\n{\n")
+		sb.WriteString("    call WORK as USE_A(\n        x = self.a,\n    )\n\n")
+		if depth == 2 {
+			sb.WriteString("    call INNERB as USE_B(\n        b = self.b,\n    )\n\n")
+		} else {
+			sb.WriteString("    call WORK as USE_B(\n        x = self.b,\n    )\n\n")
+		}
+		sb.WriteString("    return (\n        ya = USE_A.y,\n        yb = USE_B.y,\n    )\n}\n\n")
+		coll, stage, first, second := "int[]", "ECHOINTS", "[1, 2, 3]", "[4, 5, 6]"
+		if useMap {
+			coll, stage, first, second = "map<int>", "ECHOMAP", `{"a": 1, "b": 2}`, `{"a": 4, "b": 5}`
+		}
+		fmt.Fprintf(&sb, "pipeline TOP(\n    out %s ya,\n    out %s yb,\n)\n{\n", coll, coll)
+		fmt.Fprintf(&sb, "    call %s as FIRST(\n        want = %s,\n    )\n\n", stage, first)
+		fmt.Fprintf(&sb, "    call %s as SECOND(\n        want = %s,\n    )\n\n", stage, second)
+		if swap {
+			sb.WriteString("    map call PER(\n        b = split SECOND.vals,\n        a = split FIRST.vals,\n    )\n\n")
+		} else {
+			sb.WriteString("    map call PER(\n        a = split FIRST.vals,\n        b = split SECOND.vals,\n    )\n\n")
+		}
+		sb.WriteString("    return (\n        ya = PER.ya,\n        yb = PER.yb,\n    )\n}\n\ncall TOP()\n")
+		out = append(out, schedFam{name: fmt.Sprintf("fam:comapped:map%v:depth%d:swap%v", useMap, depth, swap),
+			src: sb.String(), slow: []string{".FIRST.", ".SECOND."}})
+	}
+	return out
+}
+
 func schedLongKey(rng *rand.Rand, n int, escapes bool) string {
 	const al = "abcdefghijklmnopqrstuvwxyzABCDEFGHIJKLMNOPQRSTUVWXYZ0123456789"
 	var sb strings.Builder
